@@ -347,9 +347,28 @@ func (s *c16GenState) construction() []c16BuildOp {
 	return ops
 }
 
-func c16Gen(r *vh.Rand) *c16Case {
+// c16Gen: keyed = the stream of cases about nodes added with WithInputKey / WithOutputKey (most
+// nodes carry keys); otherwise a third of the cases has a few keyed nodes.
+func c16Gen(r *vh.Rand, keyed bool) *c16Case {
 	maxDepth := []int{1, 2, 2, 3, 3}[r.Intn(5)]
-	g := c16GenTree(r, 1, maxDepth)
+	if keyed {
+		maxDepth = []int{1, 2, 2, 2, 3}[r.Intn(5)]
+	}
+	pIn, pOut := 0, 0
+	switch {
+	case keyed:
+		pIn, pOut = r.Range(35, 70), r.Range(10, 40)
+	case r.Chance(33):
+		pIn, pOut = 25, 15
+	}
+	tree := func() []c16Node {
+		t := c16GenTree(r, 1, maxDepth)
+		if pIn > 0 {
+			c16AddKeys(r, t, pIn, pOut)
+		}
+		return t
+	}
+	g := tree()
 	s := &c16GenState{r: r}
 	c16Targets(g, nil, &s.targets)
 	c := &c16Case{Store: []c16Opt{}, Mode: "seq", Kind: "single"}
@@ -367,12 +386,7 @@ func c16Gen(r *vh.Rand) *c16Case {
 			c.Store = append(c.Store, s.option())
 		}
 	}
-	paradigm := func() string {
-		if r.Chance(30) {
-			return "stream"
-		}
-		return "invoke"
-	}
+	paradigm := func() string { return c16Paradigm(r) }
 	dag := r.Chance(25)
 	all := make([]int, nopts)
 	for i := range all {
@@ -426,6 +440,9 @@ func c16Gen(r *vh.Rand) *c16Case {
 	}
 	if construct {
 		c.Kind = "construction/" + c.Kind
+	}
+	if keyed {
+		c.Kind = "keyed/" + c.Kind
 	}
 	return c
 }
@@ -495,6 +512,9 @@ func c16GenIface(r *vh.Rand) *c16Case {
 			}
 		}
 	}
+	if r.Chance(30) {
+		c16AddKeys(r, g, 30, 15)
+	}
 	s := &c16GenState{r: r}
 	c16Targets(g, nil, &s.targets)
 	c := &c16Case{Store: []c16Opt{}, Mode: "seq", Kind: "iface"}
@@ -534,14 +554,10 @@ func c16GenIface(r *vh.Rand) *c16Case {
 	for i := range ixs {
 		ixs[i] = i
 	}
-	paradigm := "invoke"
-	if r.Chance(30) {
-		paradigm = "stream"
-	}
-	c.Calls = []c16Call{{G: g, Ixs: ixs, Paradigm: paradigm, Dag: r.Chance(25)}}
+	c.Calls = []c16Call{{G: g, Ixs: ixs, Paradigm: c16Paradigm(r), Dag: r.Chance(25)}}
 	if r.Chance(15) { // the same Options again, and a subset of them
 		c.Kind = "iface/sequence"
-		c.Calls = append(c.Calls, c16Call{G: g, Ixs: c16Subset(r, len(c.Store)), Paradigm: "invoke", Dag: c.Calls[0].Dag})
+		c.Calls = append(c.Calls, c16Call{G: g, Ixs: c16Subset(r, len(c.Store)), Paradigm: c16Paradigm(r), Dag: c.Calls[0].Dag})
 	}
 	return c
 }
@@ -638,6 +654,34 @@ func c16Corpus() []*c16Case {
 		ione("iface-option-to-graph-around", c16Opt{Ty: c16TyE, Vals: []int{1}, Paths: [][]string{{"sub"}}}),
 		ione("iface-callbacks-to-any-lambda", c16Opt{Handlers: []int{1}, Paths: [][]string{{"la"}, {"sub", "ii"}}}),
 	)
+	// nodes added with WithInputKey / WithOutputKey, every case in the four paradigms:
+	//   a ⟶ k (input key) ⟶ sub (input key)[ a ⟶ in[ a ⟶ cm (chat model, input key) ] ] ⟶ o (output key) ⟶ z (input key)
+	ktree := []c16Node{
+		lam("a", c16TyA),
+		{K: "comp", Key: "k", Ty: c16TyA, Impl: "lambda", InKey: "k"},
+		{K: "graph", Key: "sub", InKey: "q", Ch: []c16Node{
+			lam("a", c16TyA),
+			{K: "graph", Key: "in", Ch: []c16Node{lam("a", c16TyA), {K: "comp", Key: "cm", Ty: c16TyM, Impl: "model", InKey: "r"}}},
+		}},
+		{K: "comp", Key: "o", Ty: c16TyA, Impl: "lambda", OutKey: "k"},
+		{K: "comp", Key: "z", Ty: c16TyB, Impl: "lambda", InKey: "k"},
+	}
+	kone := func(kind string, opts ...c16Opt) {
+		for _, par := range []string{"invoke", "stream", "collect", "transform"} {
+			c := one(kind+"/"+par, append([]c16Opt{}, opts...)...)
+			c.Calls[0].G = ktree
+			c.Calls[0].Paradigm = par
+			cs = append(cs, c)
+		}
+	}
+	kone("keys-undesignated", c16Opt{Ty: c16TyA, Vals: []int{1, 2}}, c16Opt{Ty: c16TyM, Vals: []int{3}}, c16Opt{Ty: c16TyB, Vals: []int{4}})
+	kone("keys-designated", c16Opt{Ty: c16TyA, Vals: []int{1}, Paths: [][]string{{"k"}, {"sub", "in", "a"}}}, c16Opt{Ty: c16TyB, Vals: []int{2}, Paths: [][]string{{"z"}}},
+		c16Opt{Ty: c16TyM, Vals: []int{3}, Paths: [][]string{{"sub", "in", "cm"}}})
+	kone("keys-designated-graph", c16Opt{Ty: c16TyA, Vals: []int{1}, Paths: [][]string{{"sub"}}})
+	kone("keys-callbacks", c16Opt{Handlers: []int{1}}, c16Opt{Handlers: []int{2}, Paths: [][]string{{"k"}}},
+		c16Opt{Handlers: []int{3}, Paths: [][]string{{"sub", "in"}}}, c16Opt{Handlers: []int{4}, Paths: [][]string{{"sub", "in", "cm"}}})
+	kone("keys-unknown-nested", c16Opt{Ty: c16TyA, Vals: []int{1}, Paths: [][]string{{"sub", "zz"}}})
+	kone("keys-wrong-type-nested", c16Opt{Ty: c16TyB, Vals: []int{1}, Paths: [][]string{{"sub", "in", "a"}}})
 	return append(cs, mk("conc"), mk("seq"), derived)
 }
 
@@ -709,6 +753,22 @@ func c16DropNode(nodes []c16Node, idx *int) ([]c16Node, bool) {
 		}
 	}
 	return nodes, false
+}
+
+// c16NthNode: the idx-th node (pre-order) of a tree.
+func c16NthNode(nodes []c16Node, idx *int) *c16Node {
+	for i := range nodes {
+		if *idx == 0 {
+			return &nodes[i]
+		}
+		*idx--
+		if nodes[i].K == "graph" {
+			if n := c16NthNode(nodes[i].Ch, idx); n != nil {
+				return n
+			}
+		}
+	}
+	return nil
 }
 
 func c16TreeOK(nodes []c16Node) bool {
@@ -833,6 +893,42 @@ func c16Shrink(ctx *vh.Ctx, c *c16Case, sig string) *c16Case {
 				}
 			}
 		}
+		// a simpler paradigm, fewer keys
+		for k := range cur.Calls {
+			for _, par := range []string{"invoke", "stream"} {
+				if p := cur.Calls[k].Paradigm; p == par || p == "invoke" || p == "" {
+					continue
+				}
+				cand := c16Clone(cur)
+				cand.Calls[k].Paradigm = par
+				if try(cand) {
+					progress = true
+				}
+			}
+			for idx := 0; idx < 40; idx++ {
+				for _, which := range []string{"out", "in"} {
+					cand := c16Clone(cur)
+					n := idx
+					nd := c16NthNode(cand.Calls[k].G, &n)
+					if nd == nil {
+						break
+					}
+					if which == "out" && nd.OutKey != "" {
+						nd.OutKey = ""
+					} else if which == "in" && nd.InKey != "" {
+						nd.InKey = ""
+					} else {
+						continue
+					}
+					if !c16FlowOK(cand.Calls[k].G) {
+						continue
+					}
+					if try(cand) {
+						progress = true
+					}
+				}
+			}
+		}
 		// drop a node
 		for k := range cur.Calls {
 			for idx := 0; idx < 40; idx++ {
@@ -842,7 +938,7 @@ func c16Shrink(ctx *vh.Ctx, c *c16Case, sig string) *c16Case {
 				if !ok {
 					break
 				}
-				if !c16TreeOK(g) {
+				if !c16TreeOK(g) || !c16FlowOK(g) {
 					continue
 				}
 				cand.Calls[k].G = g
